@@ -26,7 +26,8 @@ from harness.core import enc_str, enc_val
 MANIFEST = dict(
     category="proof",
     technique="Lean 4 theorems over hand-written models of parse_tlv / generate_tlv / parse_fwf_row / generate_fwf_row / "
-              "the row loop of load_fwf + Python-subset-to-Lean translator of parse_tlv with machine-checked equality to the model "
+              "the row loop of load_fwf + Python-subset-to-Lean translators of parse_tlv, generate_tlv, the slice of parse_fwf_row and the cell "
+              "rendering of generate_fwf_row (regenerated from the source on every run) with machine-checked equality to the models "
               "+ differential correspondence with the implementation",
     text="Second tie for parse_tlv: harness/translate_py_tlv.py re-translates the generator (while loop with an offset, tuple assignments, slices, int()) "
          "into Lean on every run (Gen/TlvPy.lean) and Lean re-checks C16_generated_step_eq (translated loop body = Tlv.step seen through the yielded triple and the next offset), "
